@@ -33,6 +33,21 @@ def run(c):
     c.exhaustive = True
     rr = c.build("record_repart", ["record_repart.cpp"], mpi=True)
     mca = {"OMPI_MCA_mpi_yield_when_idle": 1, "OMPI_MCA_hwloc_base_binding_policy": "none", "VERIF_REPS": reps}
+    # spec -> code: the model's whole input space (every Init state of RepartitionModel: sizes 0..2 per rank, npart <= np,
+    # every part vector) is executed on the real routine; the number of executed cases must be the number of Init states
+    for n in (1, 2, 3):
+        t = c.record(rr, ["exh"], out=c.path("repart-exh-%d.ndjson" % n), mpi=n, env=dict(mca, VERIF_MAXLOC=2), timeout=900)
+        lines = [x for x in open(t).read().splitlines() if x.startswith("{") and x.endswith("}")]
+        if not lines:
+            continue
+        open(t, "w").write("\n".join(lines) + "\n")
+        want = sum(sum(k ** m for m in range(3)) ** n for k in range(1, n + 1))
+        got = sum(1 for x in lines if x.startswith('{"k":"perm"'))
+        if got != want and lines[-1] == '{"e":"End"}':
+            raise Exception("exhaustive replay for np=%d executed %d cases, the model has %d initial states" % (n, got, want))
+        res = c.tlc_trace("X03Trace", t, label="model input space, np=%d" % n, chunk=400, env={"JAVA_TOOL_OPTIONS": "-Xss64m"}, heap="3g")
+        c.nontrivial.update(("exh", n, i) for i in range(got))
+        c.judge(res, "repartitioning utility differs from its specification", sigfn=lambda rec, cl: {"k": rec.get("k", rec.get("e")), "np": rec.get("np")}, stage="exh np=%d" % n)
     for n in nps:
         t = c.record(rr, [], out=c.path("repart-%d.ndjson" % n), mpi=n, env=mca, timeout=900)
         lines = [x for x in open(t).read().splitlines() if x.startswith("{") and x.endswith("}")]
